@@ -942,3 +942,194 @@ Proof.
   intros n l H pre k cid post El.
   destruct (car_sound_gen n l None [] I H pre k cid post El) as [p Hp]. exists p. exact Hp.
 Qed.
+
+(* ======================================================================================== *)
+(* C07_fifo: conservation of the connection queue                                            *)
+(* ======================================================================================== *)
+
+Lemma calls_of_app : forall a b, calls_of (a ++ b) = calls_of a ++ calls_of b.
+Proof. intros. unfold calls_of. apply flat_map_app. Qed.
+
+Lemma calls_of_nocall : forall o, Forall nocall o -> calls_of o = [].
+Proof.
+  induction o as [|e t IH]; intros H; auto. inv H. destruct e; try contradiction; cbn; auto.
+Qed.
+
+Lemma shutdown_step_notlive : forall c s dl start sid s1 o,
+  shutdown_step c s dl start sid = (s1, o) -> ws s = WShutdown dl start sid -> ~ live s1.
+Proof.
+  intros c s dl start sid s1 o H Ew. unfold shutdown_step in H. unfold live.
+  destruct (drain c (cq s) (counter s)) as [cnt o1]. sel.
+  destruct (now s <? dl)%Z. { inv H. sel. rewrite Ew. tauto. }
+  destruct (total c _) as [|n]. { inv H. sel. tauto. }
+  destruct (n =? 0)%Z. { inv H. sel. tauto. }
+  destruct (c_timeout c <=? now s - start)%Z; inv H; sel; tauto.
+Qed.
+
+Lemma sstep_ret_cq : forall c s s1 o, SStep c s s1 o NRet -> live s1 -> cq s1 = cq s.
+Proof.
+  intros c s s1 o H L. inv H; sel; auto; unfold live in L; sel; try contradiction.
+  exfalso. eapply shutdown_step_notlive; eauto.
+Qed.
+
+Lemma pstep_ret_cq : forall c top s s1 o, pstep c top s = (s1, o, NRet) -> live s1 -> cq s1 = cq s.
+Proof.
+  intros c top s s1 o H L. apply pstep_cases in H.
+  destruct H as [[-> H]|[-> (s0 & o0 & b & HS & H)]].
+  - eapply sstep_ret_cq; eauto.
+  - destruct H as [(-> & -> & _ & _)|(-> & o1 & H1 & ->)].
+    + inv HS; unfold live in L; sel; contradiction.
+    + inv HS.
+      * eapply sstep_ret_cq; eauto.
+      * apply sstep_ret_cq in H1; auto.
+Qed.
+
+Lemma sstep_top_cq : forall c s s1 o, SStep c s s1 o NTop -> cq s1 = cq s /\ cq_open s1 = cq_open s.
+Proof. intros c s s1 o H. inv H; sel; auto. Qed.
+
+Lemma poll_cq : forall c s, Inv c s -> finished s = false ->
+  exists rest, cq s = calls_of (snd (poll c s)) ++ rest /\ (live (fst (poll c s)) -> cq (fst (poll c s)) = rest).
+Proof.
+  intros c s I0 F.
+  apply (poll_ind c (fun _ s s2 o => exists rest, cq s = calls_of o ++ rest /\ (live s2 -> cq s2 = rest))); auto.
+  - intros top s0 s1 o I1 F1 Hp. exists (cq s0).
+    rewrite calls_of_nocall by (apply basic_nocall; eapply pstep_ret_basic; eauto).
+    split; auto. intros L. eapply pstep_ret_cq; eauto.
+  - intros top s0 s1 o1 nx s2 o2 I1 L1 Hsq HS Hn I2 L2 Hsq2 (rest & E & HL).
+    exists rest. split; auto. rewrite calls_of_app. destruct nx; [congruence| |].
+    + rewrite calls_of_nocall by (apply basic_nocall; eapply sstep_basic; eauto; discriminate).
+      apply sstep_top_cq in HS. destruct HS as [<- _]. exact E.
+    + apply sstep_loop_inv in HS.
+      destruct HS as (sv & o0 & tok & cid & rest0 & v & Ew & Ec & Eq & En & -> & ->).
+      sel. rewrite calls_of_app.
+      rewrite calls_of_nocall by (apply basic_nocall, pollready_basic; eapply check_ready_pollready; eauto).
+      cbn. rewrite Eq, E. reflexivity.
+Qed.
+
+Lemma live_dec : forall s, {live s} + {~ live s}.
+Proof. intros s. unfold live. destruct (ws s); auto. Qed.
+
+Lemma sstep_notlive : forall c s s1 o nx, SStep c s s1 o nx -> ~ live s -> ~ live s1 /\ nx = NRet.
+Proof.
+  intros c s s1 o nx H NL. unfold live in NL.
+  inv H; try (rewrite H0 in NL; exfalso; apply NL; exact I).
+  - split; auto. eapply shutdown_step_notlive; eauto.
+  - split; auto.
+Qed.
+
+Lemma poll_notlive : forall c s, Inv c s -> finished s = false -> ~ live s ->
+  ~ live (fst (poll c s)) /\ Forall nocall (snd (poll c s)).
+Proof.
+  intros c s I0 F NL.
+  apply (poll_ind c (fun _ s s2 o => ~ live s -> ~ live s2 /\ Forall nocall o)); auto.
+  - intros top s0 s1 o I1 F1 Hp NL0. split.
+    + apply pstep_cases in Hp. destruct Hp as [[-> H]|[-> (sa & oa & b & HS & H)]].
+      * eapply sstep_notlive; eauto.
+      * destruct H as [(-> & -> & _ & _)|(-> & o1 & H1 & ->)].
+        -- inv HS; unfold live; sel; tauto.
+        -- inv HS; eapply sstep_notlive; eauto.
+    + apply basic_nocall. eapply pstep_ret_basic; eauto.
+  - intros top s0 s1 o1 nx s2 o2 I1 L1 _ _ _ _ _ _ _ NL0. contradiction.
+Qed.
+
+Lemma shutdown_step_open : forall c s dl start sid s1 o,
+  shutdown_step c s dl start sid = (s1, o) -> cq_open s1 = cq_open s.
+Proof.
+  intros c s dl start sid s1 o H. unfold shutdown_step in H.
+  destruct (drain c (cq s) (counter s)) as [cnt o1]. sel.
+  destruct (now s <? dl)%Z; [inv H; reflexivity|].
+  destruct (total c _) as [|n]; [inv H; reflexivity|].
+  destruct (n =? 0)%Z; [inv H; reflexivity|].
+  destruct (c_timeout c <=? now s - start)%Z; inv H; reflexivity.
+Qed.
+
+Lemma sstep_open : forall c s s1 o nx, SStep c s s1 o nx -> cq_open s1 = cq_open s.
+Proof.
+  intros c s s1 o nx H. inv H; sel; auto. eapply shutdown_step_open; eauto.
+Qed.
+
+Lemma stoph_open : forall c s s0 o0 b, StopH c s s0 o0 b -> cq_open s0 = cq_open s.
+Proof. intros c s s0 o0 b H. inv H; reflexivity. Qed.
+
+Lemma pstep_open : forall c top s s1 o nx, pstep c top s = (s1, o, nx) -> cq_open s1 = cq_open s.
+Proof.
+  intros c top s s1 o nx H. apply pstep_cases in H.
+  destruct H as [[-> H]|[-> (s0 & o0 & b & HS & H)]].
+  - eapply sstep_open; eauto.
+  - apply stoph_open in HS. destruct H as [(_ & -> & _ & _)|(_ & o1 & H1 & _)]; auto.
+    apply sstep_open in H1. congruence.
+Qed.
+
+Lemma poll_open : forall c s, Inv c s -> finished s = false -> cq_open (fst (poll c s)) = cq_open s.
+Proof.
+  intros c s I0 F.
+  apply (poll_ind c (fun _ s s2 _ => cq_open s2 = cq_open s)); auto.
+  - intros. eapply pstep_open; eauto.
+  - intros top s0 s1 o1 nx s2 o2 _ _ _ HS _ _ _ _ E2. rewrite E2. eapply sstep_open; eauto.
+Qed.
+
+Definition pushes_from (open : bool) (ops : list op) : list (nat * nat) :=
+  if open then pushes_of ops else [].
+
+Lemma live_ws : forall s s', ws s' = ws s -> (live s' <-> live s).
+Proof. intros s s' E. unfold live. rewrite E. tauto. Qed.
+
+Lemma run_fifo : forall c ops s, Inv c s ->
+  (live s -> exists rest,
+      cq s ++ pushes_from (cq_open s) ops = calls_of (concat (run c s ops)) ++ rest)
+  /\ (~ live s -> calls_of (concat (run c s ops)) = []).
+Proof.
+  intros c. induction ops as [|o t IH]; intros s I0.
+  { cbn. split; eauto. }
+  cbn [run]. destruct (finished s) eqn:F.
+  { cbn. split; eauto. }
+  destruct (step c s o) as [s' l] eqn:Es.
+  pose proof (step_inv c s o I0 F) as I1. rewrite Es in I1. cbn [fst] in I1.
+  destruct (IH s' I1) as [IHl IHn]. cbn [concat]. rewrite calls_of_app.
+  destruct (op_eq_poll_dec o) as [->|Hn].
+  - (* PollW *)
+    cbn [step] in Es. pose proof (poll_cq c s I0 F) as (rest0 & E0 & EL).
+    rewrite Es in E0, EL. cbn [fst snd] in E0, EL.
+    assert (Eo : cq_open s' = cq_open s /\ pushes_from (cq_open s) (PollW :: t) = pushes_from (cq_open s) t).
+    { split; [|reflexivity]. pose proof (poll_open c s I0 F) as K. now rewrite Es in K. }
+    destruct Eo as [Eo1 Eo2].
+    split.
+    + intros L. destruct (live_dec s') as [L'|NL'].
+      * destruct (IHl L') as [rest Er]. exists rest.
+        rewrite Eo2, E0, <- app_assoc. rewrite <- (EL L'), <- Eo1, Er. now rewrite app_assoc.
+      * rewrite (IHn NL'), app_nil_r. exists (rest0 ++ pushes_from (cq_open s) (PollW :: t)).
+        rewrite E0. now rewrite app_assoc.
+    + intros NL. pose proof (poll_notlive c s I0 F NL) as [NL' NC]. rewrite Es in NL', NC.
+      cbn [fst snd] in *. rewrite (IHn NL'), (calls_of_nocall _ NC). reflexivity.
+  - (* the other ops emit no call and do not touch the state of the future *)
+    pose proof (step_nonpoll_basic c s o Hn) as B. rewrite Es in B. cbn [snd] in B.
+    rewrite (calls_of_nocall _ (basic_nocall _ B)). cbn [app].
+    pose proof (step_nonpoll_ws c s o Hn) as Ew. rewrite Es in Ew. cbn [fst] in Ew.
+    pose proof (live_ws s s' Ew) as LW.
+    split; [|intros NL; apply IHn; tauto].
+    intros L. destruct (IHl (proj2 LW L)) as [rest Er]. exists rest. rewrite <- Er.
+    clear - Es Hn. destruct o; try congruence; cbn [step] in Es.
+    + destruct (cq_open s) eqn:Eo.
+      * destruct (gap s); injection Es as <- <-; sel; rewrite Eo; cbn [pushes_from pushes_of];
+          rewrite <- app_assoc; reflexivity.
+      * injection Es as <- <-. rewrite Eo. reflexivity.
+    + destruct (gap s); injection Es as <- <-; sel; destruct (cq_open s); reflexivity.
+    + injection Es as <- <-. sel. destruct (cq_open s); reflexivity.
+    + destruct (mem_nat cid (inprog s)); injection Es as <- <-; sel; destruct (cq_open s); reflexivity.
+    + injection Es as <- <-. sel. destruct (cq_open s); reflexivity.
+    + destruct (gap s); injection Es as <- <-; sel; destruct (cq_open s); cbn [pushes_from pushes_of];
+        rewrite ?app_nil_r; reflexivity.
+Qed.
+
+Lemma is_prefix_app : forall a r, is_prefix a (a ++ r) = true.
+Proof.
+  induction a as [|x t IH]; intros r; cbn [is_prefix app]; auto.
+  rewrite IH. unfold pair_eqb. now rewrite !Nat.eqb_refl.
+Qed.
+
+Theorem fifo_holds : forall c ops, C07_fifo_ok ops (trace c ops) = true.
+Proof.
+  intros c ops. unfold C07_fifo_ok, trace.
+  destruct (run_fifo c ops (init c) (init_inv c)) as [H _].
+  destruct (H I) as [rest E]. cbn in E. rewrite E. apply is_prefix_app.
+Qed.
